@@ -22,6 +22,25 @@ CLAIMED = {
         engine="hypothesis-stateful"),
 }
 
+CLAIMED["C01"] = dict(
+    technique="Hypothesis-generated model programs vs. an independent reference interpreter (differential, pointwise)",
+    text="Random well-formed circuits (operators/nodes/nested circuits/edges with the anchored shapes) are compiled with "
+         "get_run_func (NumPy, float64, vectorize off and on) and the returned function, state layout, y0 and argument "
+         "values are compared pointwise with an independent interpreter of the spec at random states and parameter "
+         "assignments passed through the returned argument list. Exploration: holds on everything generated outside "
+         "the listed known findings.",
+    note="Trusts pv/model.py:RefModel + pv/expr.py (self-tested against Python eval); tolerance 1e-9*M+1e-12; bounded "
+         "to <=6 nodes, <=3 ops/node, depth<=2, <=8 edges.",
+    design_ref="DESIGN.md §4 C01")
+CLAIMED["C04"] = dict(
+    technique="Hypothesis-generated circuits, metamorphic relation vectorize=True vs vectorize=False on run() "
+              "trajectories, reference interpreter as tie-breaker",
+    text="The same generated spec (2-10 nodes of 1-2 types, shared templates, drawn edge density and matrix_sparseness) "
+         "is simulated with and without vectorisation; all state-variable trajectories must agree column by column.",
+    note="Euler, 12-25 steps; outputs requested by full path in dict form; shapes of listed known findings excluded "
+         "(counted in the evidence).",
+    design_ref="DESIGN.md §4 C04")
+
 NOT_YET = {}
 
 
